@@ -280,7 +280,8 @@ package handlers
 // (status, the once) and whether the engine has answered at all (ghost started) are arbitrary.
 //@ func newStreamingResponseRecorder
 //@   property C05
-//@   ensures res != nil && fresh(res) && res.status == 200
+//@   ensures res != nil && fresh(res) && res.status == 200 && res.headers != nil && fresh(res.headers)
+//@   defines ghost(res).hdr == res.headers
 
 // the recorder's answered flag is set by exactly the two methods through which an engine can answer
 //@ func (r *streamingResponseRecorder) WriteHeader
@@ -303,7 +304,7 @@ package handlers
 //@ func (a *Application) startProxyGoroutine
 //@   property C05
 //@   trusted
-//@   modifies object streamRecorder, ghost(streamRecorder).started, ghost(streamRecorder).status, gvar pxCalls, gvar pxEndpoints, gvar pxPath, gvar pxBody, gvar pxErr, gvar pxStarted, object pr.stats, ports.RequestStats.RoutingDecision, ghost remaining, ghost backing
+//@   modifies object streamRecorder, ghost(streamRecorder).started, ghost(streamRecorder).status, ghost(streamRecorder).hdr[all], gvar pxCalls, gvar pxEndpoints, gvar pxPath, gvar pxBody, gvar pxErr, gvar pxStarted, object pr.stats, ports.RequestStats.RoutingDecision, ghost remaining, ghost backing
 //@   ensures res != nil
 
 //@ func (a *Application) handleStreamingPanic
@@ -344,7 +345,7 @@ package handlers
 //@ func (a *Application) transformStreamAndWaitForProxy
 //@   property C05
 //@   trusted
-//@   modifies ghost started, ghost status, ghost(w).hdr[all], gvar trStreams
+//@   modifies ghost started, ghost status, ghost(w).hdr[all], gvar trStreams, gvar evStarted, gvar evOpen, gvar evNext, gvar evDelta, gvar evStopped, gvar evBroken, gvar unflushed, gvar wBytes, gvar rBytes, gvar textOut, gvar argsOut, gvar argsIn, gvar lastEncoded, ghost remaining, ghost backing, ghost encW
 //@   records trStreams = old(trStreams) + 1
 
 // the streamed translation is started only after the backend has really answered (with a non-error status)
@@ -354,7 +355,7 @@ package handlers
 //@   safety
 //@   requires a != nil && a.proxyService != nil && w != nil && r != nil && trans != nil && pr != nil && pr.requestLogger != nil && pr.stats != nil && ctx != nil
 //@   requires allocated(ghost(w).hdr)
-//@   modifies gvar pxCalls, gvar pxEndpoints, gvar pxPath, gvar pxBody, gvar pxErr, gvar pxStarted, gvar lastEncoded, ghost started, ghost status, ghost hdr, ghost(w).hdr[all], ghost encW, ghost remaining, ghost backing, ports.RequestStats.RoutingDecision, object pr.stats, gvar unflushed, gvar wBytes, pr.hadError, gvar trStreams
+//@   modifies gvar pxCalls, gvar pxEndpoints, gvar pxPath, gvar pxBody, gvar pxErr, gvar pxStarted, gvar lastEncoded, ghost started, ghost status, ghost hdr, ghost(w).hdr[all], ghost encW, ghost remaining, ghost backing, ports.RequestStats.RoutingDecision, object pr.stats, gvar unflushed, gvar wBytes, pr.hadError, gvar trStreams, gvar evStarted, gvar evOpen, gvar evNext, gvar evDelta, gvar evStopped, gvar evBroken, gvar rBytes, gvar textOut, gvar argsOut, gvar argsIn
 // C05: unless the translated stream was begun, either an error answer has been written here (no endpoints: 503; the
 // backend's own error status relayed) or the client's writer is untouched and the error is returned to the caller
 //@   ensures trStreams == old(trStreams) || trStreams == old(trStreams) + 1
@@ -388,10 +389,21 @@ package handlers
 //@   safety
 //@   requires r != nil && stats != nil
 //@   ensures res0 != nil && res1 != nil && res1.URL == r.URL && res1.Body == r.Body
+// request analysis: client address, target path, the inspector chain (which may replace the body by a buffered copy)
+// and the request profile; the client's writer and the engine are not involved
+// the parts of the application every request handler relies on for request analysis (set once by NewApplication)
+//@ spec func chainOK(a *Application) bool = a.Config != nil && a.inspectorChain != nil && a.inspectorChain.logger != nil && (forall k int :: 0 <= k && k < len(a.inspectorChain.inspectors) ==> a.inspectorChain.inspectors[k] != nil)
+//@ func (a *Application) stripRoutePrefix
+//@   property C05
+//@   safety
+//@   requires ctx != nil
 //@ func (a *Application) analyzeRequest
 //@   property C05
-//@   trusted
-//@   modifies pr.profile, pr.model, ghost remaining, ghost backing
+//@   safety
+//@   requires a != nil && chainOK(a)
+//@   requires ctx != nil && r != nil && r.URL != nil && pr != nil && pr.requestLogger != nil && pr.stats != nil
+//@   modifies pr.clientIP, pr.targetPath, pr.profile, pr.model, pr.stats.Model, pr.stats.PathResolutionMs, r.Body, ghost remaining, ghost backing, ghost released
+//@   ensures pr.profile != nil && fresh(pr.profile)
 //@ func (a *Application) resolveTranslationFallback
 //@   property C05
 //@   safety
@@ -403,7 +415,7 @@ package handlers
 //@ func (a *Application) translationHandler$1
 //@   property C05 C14 C19
 //@   safety
-//@   requires a != nil && a.proxyService != nil && a.logger != nil && a.statsCollector != nil && w != nil && r != nil && r.URL != nil && r.Body != nil && trans != nil
+//@   requires a != nil && a.proxyService != nil && a.logger != nil && a.statsCollector != nil && w != nil && r != nil && r.URL != nil && r.Body != nil && trans != nil && chainOK(a)
 //@   requires !ghost(w).started && len(ghost(w).hdr["Content-Type"]) == 0 && allocated(ghost(w).hdr)
 //@   modifies *
 //@   at return 1 assert ghost(w).started && ghost(w).status == 400 && pxCalls == old(pxCalls)
@@ -468,7 +480,7 @@ package handlers
 //@   property C05 C09
 //@   replay handlers_proxy_rejected_status
 //@   safety
-//@   requires a != nil && a.proxyService != nil && a.logger != nil && w != nil && r != nil && r.URL != nil
+//@   requires a != nil && a.proxyService != nil && a.logger != nil && w != nil && r != nil && r.URL != nil && chainOK(a)
 //@   requires !ghost(w).started && len(ghost(w).hdr["Content-Type"]) == 0 && allocated(ghost(w).hdr)
 //@   modifies *
 //@   at return 1 assert ghost(w).started && ghost(w).status == 502 && pxCalls == old(pxCalls)
@@ -501,7 +513,7 @@ package handlers
 //@ func (a *Application) providerProxyHandler
 //@   property C05 C09 C11
 //@   safety
-//@   requires a != nil && a.proxyService != nil && a.logger != nil && w != nil && r != nil && r.URL != nil
+//@   requires a != nil && a.proxyService != nil && a.logger != nil && w != nil && r != nil && r.URL != nil && chainOK(a)
 //@   requires !ghost(w).started && len(ghost(w).hdr["Content-Type"]) == 0 && allocated(ghost(w).hdr)
 //@   modifies *
 //@   at return 1 assert ghost(w).started && ghost(w).status == 400 && pxCalls == old(pxCalls)
